@@ -170,7 +170,11 @@ def handle (line : String) : String :=
     id ++ "\t" ++ showEval (evaluateStringPure [] (hexOf src) (dataOf (parseTerm data)))
   | id :: "hist" :: cwd :: fs :: ops =>
     id ++ "\t" ++ doHist (hexOf cwd) (fsOf (parseTerm fs)) (ops.map parseTerm)
-  | id :: "spec" :: rest => id ++ "\t" ++ TwSpec.handleSpec rest
+  | id :: "spec" :: "expr" :: tree :: data :: _ =>
+    let env := match envFromMap (dataOf (parseTerm data)) with
+      | .ok e => some e
+      | .error _ => none
+    id ++ "\t" ++ TwSpec.specExpr tree env
   | id :: _ => id ++ "\tBADREQ"
   | [] => "BADREQ"
 
